@@ -2,8 +2,8 @@
 
 (M) TLC checks specs/clusterfsm/ClusterFSM.tla: RBACParentsExist (and the C22 invariants) hold in
     the model; AtMostOnePrimary, PrimaryExistsAndMarked and ReRegisterKeepsAssignment are probed --
-    the code as written (promote assigns before validating, add/update-node replace the record,
-    remove-node leaves primaryWriterID) does not satisfy them in the model.
+    add/update-node replace the whole record, so the model of the current code still violates them
+    (promote-before-validate and remove-node-leaves-primaryWriterID were repaired: c0a37a3, 0053d98).
 (G) every explored transition of the node/writer/compactor family (3 nodes, thorough: also 4) and
     of the RBAC families, plus seeded random histories, is replayed into a real ClusterFSM; the four
     invariants are evaluated on the real state dump after every command.  A step is judged only
@@ -18,7 +18,7 @@ LEVEL = "model_checking"
 def run(ctx):
     q = ctx.quick()
     sims = [("Sim_node.cfg", 200 if q else 1500, 12), ("Sim_auth.cfg", 120 if q else 800, 20)]
-    sp, n = lib.generate(ctx, ["node", "deep", "auth"], sims, ["AtMostOnePrimary", "PrimaryExistsAndMarked", "ReRegisterKeepsAssignment"])
+    sp, n = lib.generate(ctx, ["node", "deep", "auth"], sims, ["Probe_AtMostOnePrimary", "Probe_PrimaryExistsAndMarked", "Probe_ReRegisterKeepsAssignment"])
     r = lib.replay(ctx, sp, n)
     lib.need(r, ["AddNode", "UpdateNode", "RemoveNode", "UpdateNodeState", "PromoteWriter", "DemoteWriter", "AssignCompactor",
                  "CreateOrg", "CreateTeam", "CreateRole", "CreateMPerm", "AddTokenToTeam", "DeleteOrg", "DeleteTeam", "DeleteRole",
